@@ -297,13 +297,18 @@ func subsDev(a, b []geom.Sub) (dev float64, structural bool, at Pt) {
 	return h2, false, at2
 }
 
-// c11NonEmpty drops zero-length lines (H0, "l0 0": they trace nothing) and sub-paths left without segments.
+// c11NonEmpty drops zero-length segments (H0, "l0 0", "t0,0": they trace nothing) and sub-paths left without segments.
 func c11NonEmpty(subs []geom.Sub) []geom.Sub {
 	var out []geom.Sub
 	for _, s := range subs {
 		t := geom.Sub{Start: s.Start, Closed: s.Closed}
 		for _, sg := range s.Segs {
 			if sg.Kind == geom.Line && sg.P0 == sg.P3 {
+				continue
+			}
+			// a curve with all its points in one place ("t0,0" after a moveto) and an arc from a point to
+			// itself (omitted by SVG 1.1 F.6.2) trace nothing either
+			if sg.P0 == sg.P3 && ((sg.Kind == geom.Quad && sg.C1 == sg.P0) || (sg.Kind == geom.Cube && sg.C1 == sg.P0 && sg.C2 == sg.P0) || sg.Kind == geom.Arc) {
 				continue
 			}
 			t.Segs = append(t.Segs, sg)
